@@ -102,7 +102,8 @@ pub fn configs(thorough: bool) -> Vec<(String, HCfg)> {
     resend.retries = 2;
     resend.session_timeout = Some(Duration::from_millis(2500));
     resend.allow_drop = true;
-    out.push(("retries2-short-session".to_string(), resend));
+    // (cheap: explored first, so that a loaded machine cannot starve it of its wall share)
+    out.insert(0, ("retries2-short-session".to_string(), resend));
     if thorough {
         out.push(("expiry-three".to_string(), quiet(3, vec![req(0, 1, Body::Ping), req(2, 0, Body::Ping), req(0, 1, Body::Talk), req(0, 2, Body::Talk), req(1, 0, Body::Find(2))], None)));
         out.push(("capacity-2-mixed".to_string(), quiet(4, vec![req(1, 0, Body::Ping), req(0, 2, Body::Ping), req(3, 0, Body::Ping), req(0, 1, Body::Talk), req(0, 3, Body::Talk)], Some(2))));
